@@ -34,7 +34,9 @@ CONSTANTS PatSet,       \* set of pattern names to explore
           FaultBudget,  \* number of failing calls injected per behaviour
           FaultKinds,   \* subset of the fault kind names below
           LatePsk,      \* BOOLEAN: also explore endpoints built without one PSK
+          OverwritePsk, \* BOOLEAN: also explore set_psk on a slot that is already filled (C08, C12)
           TamperBudget, \* number of in-transit alterations per behaviour
+          Mismatches,   \* subset of {"none","prologue","psk","rs_i","rs_r","rs_i_bit","rs_r_bit"}: one context item differs (C08)
           Emit          \* BOOLEAN: print scenarios
 
 VARIABLES pc,      \* script position
@@ -61,11 +63,29 @@ PayId(k) == CASE k = 1 -> "p1" [] k = 2 -> "p2" [] k = 3 -> "p3" [] k = 4 -> "p4
               [] k = 9 -> "t5" [] k = 10 -> "t6"
 
 (* late = <<id, n>>: endpoint id is built WITHOUT psk n, or <<"-", 0>> *)
-CfgFor(id, role, pp, fixed, late) ==
+(* mm: the ONE context item on which the two parties disagree (C08), or "none":
+     prologue  - the responder has another prologue
+     psk       - the responder holds another key for the lowest psk index
+     rs_i/rs_r - the initiator / responder was given another (valid) static key of the peer
+     rs_i_bit / rs_r_bit - ... the peer's key with its top bit flipped *)
+sX == Atom("sX", 32)
+MinOf(S) == CHOOSE x \in S : \A y \in S : x <= y
+(* ow = <<id, n, "fix">>  : id is built with a WRONG key in slot n and later overwrites it with the right one
+        <<id, n, "break">>: id is built right and later overwrites slot n with a wrong key               *)
+NoOw == <<"-", 0, "-">>
+CfgFor(id, role, pp, fixed, late, mm, ow) ==
   [ s  |-> IF NeedsLocalStatic(pp.pat, role) THEN (IF role = "i" THEN sI ELSE sR) ELSE None,
-    rs |-> IF NeedsRemoteStatic(pp.pat, role) THEN Pub(IF role = "i" THEN sR ELSE sI) ELSE None,
-    psk |-> [n \in 0..4 |-> IF n \in pp.psks /\ late # <<id, n>> THEN PskAtom(n) ELSE None],
-    prologue |-> Prologue,
+    rs |-> IF NeedsRemoteStatic(pp.pat, role)
+           THEN (IF (mm = "rs_i" /\ role = "i") \/ (mm = "rs_r" /\ role = "r") THEN Pub(sX)
+                 ELSE IF (mm = "rs_i_bit" /\ role = "i") \/ (mm = "rs_r_bit" /\ role = "r")
+                      THEN Alt(Pub(IF role = "i" THEN sR ELSE sI), "fliplast")
+                 ELSE Pub(IF role = "i" THEN sR ELSE sI))
+           ELSE None,
+    psk |-> [n \in 0..4 |-> IF n \in pp.psks /\ late # <<id, n>>
+                             THEN (IF (mm = "psk" /\ role = "r" /\ n = MinOf(pp.psks)) \/ ow = <<id, n, "fix">>
+                                   THEN Atom("pskX", 32) ELSE PskAtom(n))
+                             ELSE None],
+    prologue |-> IF mm = "prologue" /\ role = "r" THEN Atom("prologue2", 0) ELSE Prologue,
     fixed_e |-> IF fixed THEN (IF role = "i" THEN Atom("eI", 32) ELSE Atom("eR", 32)) ELSE None ]
 
 (* transport traffic: who sends the j-th transport message *)
@@ -79,12 +99,19 @@ TrafficFor(p) ==
 
 BIGBUF == 70000
 
+Ows(p, ps) == IF OverwritePsk THEN {NoOw} \cup { <<id, n, k>> : id \in {"I", "R"}, n \in ps, k \in {"fix", "break"} }
+              ELSE {NoOw}
 Lates(p, ps) == IF LatePsk THEN {<<"-", 0>>} \cup { <<id, n>> : id \in {"I", "R"}, n \in ps } ELSE {<<"-", 0>>}
 
 Init ==
   /\ \E p \in PatSet, pl \in PubLens, ip \in InitPads, prof \in Profiles, v \in Variants, fx \in FixedEs, bm \in BufModes :
-       \E ps \in PskSets(p) : \E late \in Lates(p, ps) :
-         prm = [pp |-> PP(p, ps, pl, ip), prof |-> prof, variant |-> v, fixed |-> fx, late |-> late, bufs |-> bm]
+       \E ps \in PskSets(p) : \E late \in Lates(p, ps) : \E mm \in Mismatches : \E ow \in Ows(p, ps) :
+         /\ (ow # NoOw => late = <<"-", 0>> /\ mm = "none")
+         /\ (mm = "psk" => ps # {})
+         /\ (mm \in {"rs_i", "rs_i_bit"} => NeedsRemoteStatic(p, "i"))
+         /\ (mm \in {"rs_r", "rs_r_bit"} => NeedsRemoteStatic(p, "r"))
+         /\ prm = [pp |-> PP(p, ps, pl, ip), prof |-> prof, variant |-> v, fixed |-> fx, late |-> late, bufs |-> bm,
+                   mm |-> mm, ow |-> ow]
   /\ ep = [id \in {"I", "R"} |-> Absent]
   /\ hist = <<>>
   /\ aeadLog = {}
@@ -156,9 +183,9 @@ GenuinePayload(k) == Lit(PayId(k), PayLen(k, St(Writer(k))))
 Genuine ==
   /\ ~Done
   /\ UNCHANGED <<prm, budget>>
-  /\ CASE pc = 0 -> /\ Build("I", "i", prm.pp, CfgFor("I", "i", prm.pp, prm.fixed, prm.late))
+  /\ CASE pc = 0 -> /\ Build("I", "i", prm.pp, CfgFor("I", "i", prm.pp, prm.fixed, prm.late, prm.mm, prm.ow))
                     /\ pc' = pc + 1 /\ UNCHANGED <<wire, sent, status>>
-       [] pc = 1 -> /\ Build("R", "r", prm.pp, CfgFor("R", "r", prm.pp, prm.fixed, prm.late))
+       [] pc = 1 -> /\ Build("R", "r", prm.pp, CfgFor("R", "r", prm.pp, prm.fixed, prm.late, prm.mm, prm.ow))
                     /\ pc' = pc + 1 /\ UNCHANGED <<wire, sent, status>>
        [] InHandshake ->
             LET k == HsMsg IN
@@ -214,6 +241,15 @@ FixPsk ==
        /\ SetPsk(id, prm.late[2], PskAtom(prm.late[2]))
   /\ UNCHANGED <<pc, prm, wire, sent, budget, status>>
 
+(* set_psk on a filled slot, at any time (once) *)
+OwTarget == IF prm.ow[3] = "fix" THEN PskAtom(prm.ow[2]) ELSE Atom("pskX", 32)
+OwDone == \E i \in 1..Len(hist) : hist[i].op = "set_psk"
+Overwrite ==
+  /\ ~Done /\ prm.ow # NoOw /\ ~OwDone /\ pc >= 2
+  /\ Mode(prm.ow[1]) = "hs"
+  /\ SetPsk(prm.ow[1], prm.ow[2], OwTarget)
+  /\ UNCHANGED <<pc, prm, wire, sent, budget, status>>
+
 (* ---- failing calls ------------------------------------------------------ *)
 (* Each disjunct performs a call that the MODEL says fails (guard: the     *)
 (* result is an error); the script position does not move.                 *)
@@ -246,10 +282,18 @@ BadMsgs(msg) ==
   \cup (IF "rext" \in FaultKinds THEN { Extend(msg, 1), Extend(msg, TAGLEN), Extend(msg, MAXMSG) } ELSE {})
   \cup (IF "rstale" \in FaultKinds THEN { sent[i] : i \in 1..(Len(sent) - 1) } ELSE {})
 
+(* payload-buffer sizes offered with a bad message: far larger; with "rleak" also exactly the genuine
+   payload's length and a little more (C19: every buffer size) *)
+LeakBufs(id) ==
+  IF "rleak" \in FaultKinds
+  THEN LET r == ReadMessage(St(id), wire, BIGBUF) IN
+       IF r.cause = "none" THEN {BIGBUF, r.plen, r.plen + 8} ELSE {BIGBUF}
+  ELSE {BIGBUF}
+
 FaultRead ==             \* at a read step: the reader's call fails
   /\ ~IsWritePc
   /\ LET k == HsMsg id == Reader(k) IN
-     \/ \E m \in BadMsgs(wire) : HsRead(id, m, BIGBUF)
+     \/ \E m \in BadMsgs(wire) : \E ol \in LeakBufs(id) : HsRead(id, m, ol)
      \/ /\ "routbuf" \in FaultKinds
         /\ LET r == ReadMessage(St(id), wire, BIGBUF) IN
            /\ r.cause = "none" /\ r.plen > 0
@@ -289,32 +333,33 @@ GenuineAfterTamper ==
   /\ status = "tampered"
   /\ Genuine
 
-Next == (status = "run" /\ Genuine) \/ FixPsk \/ Fault \/ Tamper
+Next == (status = "run" /\ Genuine) \/ FixPsk \/ Overwrite \/ Fault \/ Tamper
         \/ (status = "tampered" /\ ~Done /\ Genuine)
 
 Spec == Init /\ [][Next]_mcvars
 
 (* ---- properties --------------------------------------------------------- *)
+Honest == budget.t = TamperBudget /\ prm.mm = "none" /\ prm.ow = NoOw    \* nobody tampered, both sides agree on the context
 Steps(ops) == { i \in 1..Len(hist) : hist[i].op \in ops }
 IsErr(i) == hist[i].exp.res = "err"
 
 (* the honest/faulty session never gets stuck unless someone tampered: every genuine step succeeds
    (C02 Completes+Delivery; with faults: C07 "the same step repeated with valid arguments succeeds") *)
-NeverStuck == (budget.t = TamperBudget) => status # "stuck"
+NeverStuck == Honest => status # "stuck"
 
 Completes ==
   \A id \in {"I", "R"} :
     Mode(id) = "hs" => (Finished(St(id)) <=> St(id).pos = N) /\ St(id).pos <= N
 
 Agreement ==
-  (budget.t = TamperBudget /\ Mode("I") = "hs" /\ Mode("R") = "hs" /\ Finished(St("I")) /\ Finished(St("R")))
+  (Honest /\ Mode("I") = "hs" /\ Mode("R") = "hs" /\ Finished(St("I")) /\ Finished(St("R")))
     => /\ St("I").ss.h = St("R").ss.h
        /\ St("I").c1 = St("R").c1 /\ St("I").c2 = St("R").c2
        /\ St("I").c1.k # St("I").c2.k
 
 (* C02 Delivery: a successful read returns the payload of the genuine write it reads *)
 Delivery ==
-  budget.t = TamperBudget =>
+  Honest =>
   \A i \in 2..Len(hist) :
     (hist[i].op \in {"hs_read", "t_read", "s_read"} /\ ~IsErr(i)) =>
       \E j \in 1..(i-1) :
@@ -343,7 +388,7 @@ ErrIsNoOp ==
 (* C17 *)
 PeerStatic(id) == Pub(IF id = "I" THEN sR ELSE sI)
 RemoteStaticCorrect ==
-  budget.t = TamperBudget =>
+  Honest =>
   \A id \in {"I", "R"} :
     Mode(id) \in {"hs", "tr", "sl"} =>
       LET o == ObsOf(ep[id]) role == IF id = "I" THEN "i" ELSE "r" IN
@@ -353,7 +398,7 @@ RemoteStaticCorrect ==
 
 (* the raw split both sides report agrees (C01/C02) *)
 RawSplitAgrees ==
-  budget.t = TamperBudget =>
+  Honest =>
   \A i, j \in Steps({"raw_split"}) : hist[i].exp.k1 = hist[j].exp.k1 /\ hist[i].exp.k2 = hist[j].exp.k2
 
 (* C03 at model level: after an alteration the two parties never both finish without an error *)
@@ -373,14 +418,30 @@ EncryptedFieldRejectedAtOnce ==
        /\ hist[a-1].op = "hs_write" /\ hist[a+1].op = "hs_read")
       => IsErr(a+1)
 
-Inv == /\ NeverStuck /\ Completes /\ Agreement /\ Delivery /\ Framing /\ ErrIsNoOp
+(* C08: if the two sides disagree on the prologue, a PSK or a pre-shared static key, the handshake never
+   completes on both sides without an error, and no transport message of one is accepted by the other *)
+MismatchNoChannel ==
+  prm.mm # "none" =>
+    /\ ~(BothFinished /\ \A i \in 1..Len(hist) : ~IsErr(i))
+    /\ \A i \in Steps({"t_read", "s_read"}) : IsErr(i)
+
+(* C08/C12 with set_psk on a filled slot: a wrong key replaced by the right one BEFORE the first message gives a
+   working channel; a right key replaced by a wrong one before the first message never does *)
+OwFirst == prm.ow # NoOw /\ \E i \in 1..Len(hist) : hist[i].op = "set_psk" /\ \A j \in 1..(i-1) : hist[j].op = "build"
+OverwriteTakesEffect ==
+  /\ (OwFirst /\ prm.ow[3] = "fix") => status # "stuck"
+  /\ (OwFirst /\ prm.ow[3] = "break") => ~(BothFinished /\ \A i \in 1..Len(hist) : ~IsErr(i))
+
+Inv == /\ NeverStuck /\ MismatchNoChannel /\ OverwriteTakesEffect /\ Completes /\ Agreement /\ Delivery /\ Framing /\ ErrIsNoOp
        /\ RemoteStaticCorrect /\ RawSplitAgrees /\ NoNonceReuse /\ ReservedUnused
        /\ NoSilentCompletion /\ EncryptedFieldRejectedAtOnce
 
 (* ---- scenario emission -------------------------------------------------- *)
-Family == IF TamperBudget > 0 THEN "tamper" ELSE IF FaultBudget > 0 \/ LatePsk THEN "faults" ELSE "honest"
+Family == IF TamperBudget > 0 THEN "tamper" ELSE IF FaultBudget > 0 \/ LatePsk THEN "faults"
+          ELSE IF Mismatches # {"none"} \/ OverwritePsk THEN "mismatch" ELSE "honest"
 Interesting ==
   \/ Family = "honest"
+  \/ (Family = "mismatch" /\ (prm.mm # "none" \/ OwDone))
   \/ (Family = "faults" /\ (budget.f < FaultBudget \/ prm.late[1] # "-"))
   \/ (Family = "tamper" /\ budget.t < TamperBudget)
 EmitInv ==
